@@ -28,6 +28,7 @@ var importMap = map[string]string{
 	"crypto/tls": "servitor/verifshim/simtls",
 	"sync":       "servitor/verifshim/simsync",
 	"os/exec":    "servitor/verifshim/simexec",
+	"golang.org/x/sync/singleflight": "servitor/verifshim/simflight",
 }
 
 // imports that would let servitor reach I/O or scheduling around the seams
@@ -137,6 +138,11 @@ func prepare(repo, verifRoot string, race bool) (bin string, treeHash string, er
 	})
 	if err != nil {
 		return "", "", infra("overlay: %v", err)
+	}
+	// the real singleflight source, instrumented like servitor's own code (its WaitGroup and
+	// mutex become scheduler-visible, its go statements labelled spawns)
+	if err := installSingleflight(scratch); err != nil {
+		return "", "", err
 	}
 	// seam-integrity check + content hash
 	h := sha256.New()
@@ -344,4 +350,28 @@ func copyFile(dst, src string) error {
 	defer out.Close()
 	_, err = io.Copy(out, in)
 	return err
+}
+
+func installSingleflight(scratch string) error {
+	cmd := exec.Command(goTool, "list", "-m", "-f", "{{.Dir}}", "golang.org/x/sync")
+	cmd.Dir = scratch
+	cmd.Env = goEnv()
+	out, err := cmd.Output()
+	if err != nil {
+		return infra("cannot locate golang.org/x/sync in the module cache: %v", err)
+	}
+	src := filepath.Join(strings.TrimSpace(string(out)), "singleflight", "singleflight.go")
+	data, err := os.ReadFile(src)
+	if err != nil {
+		return infra("read %s: %v", src, err)
+	}
+	rewritten, _, err := rewriteGo("singleflight.go", data)
+	if err != nil {
+		return infra("rewrite singleflight: %v", err)
+	}
+	dir := filepath.Join(scratch, "verifshim", "simflight")
+	if err := os.MkdirAll(dir, 0o755); err != nil {
+		return infra("mkdir: %v", err)
+	}
+	return os.WriteFile(filepath.Join(dir, "singleflight.go"), rewritten, 0o644)
 }
